@@ -60,6 +60,8 @@ def check(ctx, rep):
     rep.rule("R06e", "URL-based renderers: relative link exactly when the entry names neither host nor port; otherwise entry.geturl()", floor=3)
     rep.rule("R06f", "unset fields are completed alike by the Gopher menu line and gopher:// URLs (own host/port; other host -> port 70; no type -> 0)", floor=4)
     rep.rule("R06g", "= R04d: every protocol advertises adjust(entry.getmimetype()) for a selector (one MIME type per selector across protocols)", floor=3)
+    rep.rule("R06h", "every URL-based protocol renders, for the same local entry, a link target that percent-decodes to the entry's selector (below the protocol's own prefix)", floor=1)
+    rep.rule("R06i", "= R15g: handlers build the entry list without looking at the protocol that asks", floor=1)
     rep.rule("R06d", "menu MIME type mapped to the protocol's listing type; adjust function total", floor=4)
     pb = ctx.cls("protocols.base.BaseGopherProtocol")
     if pb is None:
@@ -284,6 +286,9 @@ def check(ctx, rep):
     from .c04 import advertised_type_obligations
 
     advertised_type_obligations(ctx, rep, "R06g")
+    equivalent_target_obligations(ctx, rep, "R06h")
+    from .c15 import protocol_independence_obligations
+    protocol_independence_obligations(ctx, rep, "R06i")
 
     # ------------------------------------------------------------------ R06d
     for P in protos:
@@ -404,6 +409,48 @@ def link_target_obligations(ctx, rep, rule="R06e"):
             problems.add("no path through the link renderer")
         rep.add(rule, f"{ro.qualname}: relative link exactly for entries without host and port", not problems, ctx.where(ro),
                 "; ".join(sorted(problems)[:3]), key=f"{rule}|{ro.qualname}")
+
+
+# ---------------------------------------------------------------------------- R06h
+def equivalent_target_obligations(ctx, rep, rule="R06h"):
+    """renderobjinfo() of each URL-based protocol evaluated on representative local entries: whatever markup surrounds it,
+    the link target is one percent-encoding layer over the selector (so every protocol's link leads to the same object)."""
+    import urllib.parse as up
+
+    from .c05 import rendered_targets
+
+    prog = ctx.prog
+    names = ["/docs/a b.txt", "/notes;2.txt", "/a?b", "/a#b", "/caf\udce9.txt", "/x&y=z,w+v$", "/100%", "/find it"]
+    for qual in ("protocols.http.HTTPProtocol", "protocols.wap.WAPProtocol", "protocols.gemini.GeminiProtocol", "protocols.spartan.SpartanProtocol"):
+        P = ctx.cls(qual)
+        if P is None:
+            continue
+        problems = []
+        n = 0
+        for nme in names:
+            for et in ("0", "1", "7", "9"):
+                rt = rendered_targets(ctx, P, nme, et)
+                if rt is None:
+                    continue
+                n += 1
+                if not rt:
+                    problems.append(f"a type-{et} entry {nme!r} is rendered without a link")
+                for t_ in rt:
+                    prefixes = [""]
+                    if qual.endswith("WAPProtocol"):
+                        prefixes = ["/WAPTOP"]
+                    pfx = prog.class_attr(P, "query_prefix")
+                    if et == "7" and isinstance(pfx, ast.Constant) and isinstance(pfx.value, str):
+                        prefixes = [pfx.value]
+                    ok = any(t_.startswith(px) and up.unquote(t_[len(px):], errors="surrogateescape") == nme and not set(t_[len(px):]) & set(" ?#\"<>")
+                             for px in prefixes)
+                    if not ok:
+                        problems.append(f"the type-{et} entry {nme!r} is linked as {t_!r}, which does not percent-decode to its selector "
+                                        "(the other protocols' links for the same entry lead to a different object)")
+        ro = prog.resolve_method(P, "renderobjinfo")
+        if n:
+            rep.add(rule, f"{qual.split('.')[-1]}: link targets decode to the entry's selector [{n} entries]", not problems, ctx.where(ro) if ro else "",
+                    "; ".join(problems[:2]), key=f"{rule}|{qual}")
 
 
 # ---------------------------------------------------------------------------- R06f
